@@ -127,6 +127,13 @@ func (r *Run) FinishShard(data any) {
 	os.Exit(0)
 }
 
+func shardProcs() string {
+	if v := os.Getenv("VERIF_SHARD_GOMAXPROCS"); v != "" {
+		return v
+	}
+	return "2"
+}
+
 // RunShards re-executes this binary n times (GOMAXPROCS=1 each; measured 4x
 // more throughput than goroutines because of allocator/GC contention), merges
 // the run state and returns each child's data.
@@ -144,7 +151,7 @@ func (r *Run) RunShards(n int) []json.RawMessage {
 		i := i
 		go func() {
 			cmd := exec.Command(os.Args[0], os.Args[1:]...)
-			cmd.Env = append(os.Environ(), fmt.Sprintf("VERIF_SHARD=%d/%d", i, n), fmt.Sprintf("VERIF_PARTIAL=%s/partial-%s-%d.json", dir, r.ID, i), "GOMAXPROCS=2", "GOGC=200")
+			cmd.Env = append(os.Environ(), fmt.Sprintf("VERIF_SHARD=%d/%d", i, n), fmt.Sprintf("VERIF_PARTIAL=%s/partial-%s-%d.json", dir, r.ID, i), "GOMAXPROCS="+shardProcs(), "GOGC=200")
 			cmd.Stdout = os.Stdout
 			cmd.Stderr = os.Stderr
 			ch <- res{i, cmd.Run()}
